@@ -73,6 +73,10 @@ Fixpoint py_while (fuel : nat) (c : S -> bool) (body : stmt S R) (s : S) : ctl R
         end
       else (CNormal, s)
   end.
+(* the expanded body of a method call `self.m(...)`: a `return` inside it ends the callee, the caller goes on *)
+Definition py_catch_return {S R : Type} (b : stmt S R) : stmt S R :=
+  fun s => match b s with (CReturn _, s') => (CNormal, s') | r => r end.
+
 Definition py_outcome (c : ctl R) : result R :=
   match c with CNormal | CContinue => RetNone | CReturn r => Ret r | CRaise e => Exc e end.
 Definition py_run (b : stmt S R) (s : S) : result R :=
